@@ -669,7 +669,67 @@ class Fn:
             r2 = self._bool_remat(res["true"], res["false"])
             if r2:
                 res["true"], res["false"] = r2
+        # see through the `let result = match call() { Ok(..) => more()..., Err(e) => Err(e.into()) }; if let Err(e) = result`
+        # idiom: the Err arm only re-wraps the error into a new Result local that a join block switches on again
+        if "Err" in res:
+            r3 = self._variant_remat(res["Err"], "Err")
+            if r3:
+                res["Err"] = r3[0]
+                okk = "Ok" if "Ok" in res else ("Continue" if "Continue" in res else None)
+                if okk and r3[1] is not None and self._reaches_straight(res[okk][1], r3[0][0]):
+                    res[okk] = r3[1]
         return res
+
+    def _straight_succ(self, b):
+        t = self.term(b)
+        if t[0] == "goto":
+            return t[1]
+        if t[0] == "call" and t[1].get("target") is not None:
+            return t[1]["target"]
+        if t[0] == "drop":
+            return t[2] if len(t) > 2 and isinstance(t[2], int) else None
+        return None
+
+    def _reaches_straight(self, b, goal, limit=24):
+        for _ in range(limit):
+            if b == goal:
+                return True
+            b = self._straight_succ(b)
+            if b is None:
+                return False
+        return False
+
+    def _variant_remat(self, edge, variant, limit=12):
+        """edge (switch_bb, target): follow the straight-line code at `target`; if it builds `R = <variant>(..)` for a
+        plain local R and runs into a block that switches on discriminant(R), return
+        ((that_bb, its target for `variant`), (that_bb, its target for the other variant or None))."""
+        b = edge[1]
+        R = None
+        for _ in range(limit):
+            for st in self.stmts(b):
+                if st.rv_kind() == "agg" and st.rv[1].get("variant") == variant and st.place is not None and not st.place.proj and st.place.local != 0:
+                    R = st.place.local
+                if R is not None and st.rv_kind() == "discr" and Place(st.rv[1]).local == R and not Place(st.rv[1]).proj:
+                    sw = self.switch_on(b)
+                    if sw and sw[0].place is not None and sw[0].place.local == st.place.local:
+                        names = variant_names(st.rv[2])
+                        tv = other = None
+                        for v, tgt in sw[1].items():
+                            if names.get(v) == variant:
+                                tv = tgt
+                            else:
+                                other = tgt
+                        if tv is None and not self.is_unreachable_block(sw[2]):
+                            tv = sw[2]
+                        if other is None and not self.is_unreachable_block(sw[2]) and tv != sw[2]:
+                            other = sw[2]
+                        if tv is not None:
+                            return (b, tv), ((b, other) if other is not None else None)
+            nb = self._straight_succ(b)
+            if nb is None:
+                return None
+            b = nb
+        return None
 
     def _bool_remat(self, te, fe):
         def follow(b):
